@@ -69,7 +69,7 @@ Print Assumptions C10_refused_before_touch.
    constructs being written itself still needs it (repair fix2-2). *)
 Theorem C10_external_refused_before_touch :
   forall G fs q o stamp fs1 e ef efs,
-  write_one G fs (q_fields q) (q_x q) o (ext_same (nodes fs) (q_x q) (q_ext q)) stamp = (fs1, None) ->
+  write_one G fs (q_fields q) (q_x q) o (ext_same_at G fs q o stamp) stamp = (fs1, None) ->
   q_ext q = Some e -> q_efields q = ef :: efs ->
   existsb (fun f => G fs1 f e) (q_fields q) = true ->
   write_model G fs q o stamp = (fs1, Some ValueErr).
@@ -225,3 +225,12 @@ Theorem C10_given_example :
    r = None /\ content fs' [1; 2; 8] <> content ex_fs [1; 2; 8]).
 Proof. exact given_example. Qed.
 Print Assumptions C10_given_example.
+
+(* The refusal of "external file == target" is decided where the code decides it: after the
+   target has been opened (mode w), in the dry run (append). *)
+Theorem C10_ext_same_example :
+  snd (write_model guard ex_fs (mkQ [ex_h] [ex_ef] (tg ex_fs 12) (Some (tg ex_fs 10))) (mkW MW true FNone) 1000) = None /\
+  snd (write_model guard ex_fs (mkQ [ex_h] [ex_ef] (tg ex_fs 11) (Some (tg ex_fs 10))) (mkW MW true FNone) 1000) = Some ValueErr /\
+  snd (write_model guard ex_fs (mkQ [ex_h] [ex_ef] (tg ex_fs 12) (Some (tg ex_fs 10))) (mkW MA true FNone) 1000) = Some ValueErr.
+Proof. exact ext_same_example. Qed.
+Print Assumptions C10_ext_same_example.
